@@ -371,3 +371,27 @@ def c16_5(ctx, r):
                         clause="node teardown command runs after all jobs ended ... configuring them never prevents the batch's results from being recorded",
                         attr=n.attr,
                     )
+
+
+@rule(P, "C16.5b", "T16", "every local read in the hook functions is bound on every path that reaches the read", min_obligations=3)
+def c16_5b(ctx, r):
+    from ..lib import possibly_unbound
+
+    for spec in ("JobSubmitter.submit_jobs", "JobSubmitter._handle_completion", "JobRunner.run_jobs", "JobRunner._run_jobs"):
+        fn = ctx.fn(spec, "C16.5b")
+        hits = possibly_unbound(ctx, fn)
+        for n, sub in hits:
+            r.bad(key_of(fn, f"possibly unbound local {sub.id}"), fn.loc(sub),
+                  f"`{sub.id}` is read at `{ctx.src(n.stmt)[:60]}` but a path reaches this statement without binding it (UnboundLocalError): after the batch's jobs ran, the exception aborts run_jobs, "
+                  "so the results of the batch are not collected and the node never triggers the next round",
+                  "configuring them never prevents the batch's results from being recorded")
+        if not hits:
+            r.ok(f"{fn.short}: all local reads are definitely assigned")
+
+
+@rule(P, "C16.6", "T1", "the completion step (with teardown) cannot run on an already complete submission", min_obligations=3)
+def c16_6(ctx, r):
+    from .c05 import c05_4, c05_5
+
+    c05_4(ctx, r)
+    c05_5(ctx, r)
